@@ -688,11 +688,19 @@ struct Exec {
 		R              = RunResult{};
 		step_faulted_.clear();
 		int idx = 0;
+		bool cut = false;
 		for(Op const& op : plan.ops) {
 			step(idx++, op);
 			if(R.violated) break;
+			// the input class of the open known finding (reextent of a re-indexed array, known_findings.json): whatever the
+			// library did there, nothing downstream of it is evaluated - otherwise the same defect could surface under the
+			// signature of a later, innocent operation (it did, under a behaviour-preserving refactoring of reextent)
+			if((op.kind == O_REEXTENT || op.kind == O_REEXTENT_FILL) && op.var == 1) {
+				cut = true;
+				break;
+			}
 		}
-		if(!R.violated) {
+		if(!R.violated && !cut) {
 			// end of run: every array dies, nothing may be outstanding
 			Op fin;
 			fin.kind = O_DESTROY;
@@ -708,7 +716,7 @@ struct Exec {
 		R.hash_obs  = W.hash_obs;
 		G.ticks += W.tick;
 		++G.runs;
-		if(R.violated) abandon();
+		if(R.violated || cut) abandon();
 		return R;
 	}
 	void abandon() {  // after a violation the slots are dropped without running destructors
